@@ -22,8 +22,8 @@ ASSUMPTIONS = ['grid points within 1e-9 (relative) of an operand end point may t
 PLAN = {'quick': {'gen': 8}, 'thorough': {'gen': 16, 'tests': 1, 'docs': 1}}
 REQUIRED_BUCKETS = ['range:identical', 'range:nested', 'range:overlap', 'range:disjoint', 'grid:uniform', 'grid:nonuniform',
                     'op:add', 'op:subtract', 'op:multiply', 'op:divide', 'op:power', 'sampling:min', 'sampling:left',
-                    'sampling:right', 'sampling:float', 'fill:0', 'fill:nonzero', 'unit:nm', 'unit:um', 'unit:m',
-                    'unit:angstrom', 'unit:mixed', 'scalar', 'vector', 'method:quadratic', 'method:cubic', 'blackbody', 'density', 'update-sequence', 'values:integer', 'scalar:numpy-type', 'same-spectrum:two-units', 'grid:decimal-step']
+                    'sampling:right', 'sampling:float', 'fill:0', 'fill:nonzero', 'fill:pair', 'unit:nm', 'unit:um', 'unit:m',
+                    'unit:angstrom', 'unit:mixed', 'scalar', 'vector', 'method:quadratic', 'method:cubic', 'blackbody', 'density', 'update-sequence', 'values:integer', 'scalar:numpy-type', 'scalar:integer-values', 'same-spectrum:two-units', 'grid:decimal-step']
 REQUIRED_ANCHORS = ['probe:Spectrum._ufunc', 'anchor:_interp_common', 'anchor:_sampling', 'anchor:Spectrum.sample']
 REQUIRED_ORACLES = ['grid', 'value=op(interp)', 'new-object', 'commutative', 'unit-agnostic', 'operands-physically-unchanged',
                     'scalar-elementwise']
@@ -69,15 +69,24 @@ def ufunc_oracle(ctx, args, kwargs, result, exc, pre):
         return
     sw, sv, su, sphys = pre['self']
     if not hasattr(other, 'wave'):
+        if exc is not None and sv.dtype.kind in 'biu' and np.ndim(other) == 0 and isinstance(other, (int, float, np.number)):
+            ctx.check(False, 'scalar-elementwise', f'scalar|integer-values|raises={type(exc).__name__}',
+                      f'operation of an integer-valued spectrum with a scalar raised {type(exc).__name__}: {exc}', {'op': uf.__name__, 'other': repr(other)})
+            return
         if exc is not None:
             ctx.skip('scalar/vector operand refused')
             return
         with np.errstate(all='ignore'):
             try:
-                ref = uf(sv, other)
+                # values are real numbers whatever integer type a hand-typed table arrives in
+                ref = uf(sv.astype(float) if sv.dtype.kind in 'biu' else sv, other)
             except Exception:
                 return
-        ok = np.array_equal(result.wave, sw) and np.array_equal(result.value, ref, equal_nan=True) and result is not self
+        if sv.dtype.kind in 'biu':
+            okv = np.shape(result.value) == np.shape(ref) and np.allclose(np.asarray(result.value, float), ref, rtol=1e-14, atol=0, equal_nan=True)
+        else:
+            okv = np.array_equal(result.value, ref, equal_nan=True)
+        ok = np.array_equal(result.wave, sw) and okv and result is not self
         ctx.check(ok, 'scalar-elementwise', 'scalar|elementwise',
                   'operation with a scalar/vector is not element-wise on the unchanged grid', {'op': uf.__name__})
         return
@@ -263,11 +272,17 @@ def workload(ctx, lentil):
         smp = ['min', 'min', 'left', 'right', 'float'][int(rng.integers(0, 5))]
         sampling = smp if smp != 'float' else float(rng.uniform(0.5, 60))
         fill = 0 if rng.random() < 0.6 else float(rng.uniform(-1, 2))
+        if method == 'linear' and i % 6 == 3:
+            # the documented two-element form: one value below an operand's range, another above it
+            fill = (float(rng.uniform(-1, 2)), float(rng.uniform(-1, 2)))
+            if i % 12 == 3:
+                fill = list(fill)
+            ctx.bucket('fill:pair')
         unit = units[int(rng.integers(0, 4))]
         desc = {'rel': rel, 'op': opn, 'sampling': sampling, 'method': method, 'fill': fill, 'unit': unit,
                 'wa': probe.fp_array(wa)[:8], 'wb': probe.fp_array(wb)[:8]}
         bks = [f'range:{rel}', 'grid:uniform' if (ua and ub) else 'grid:nonuniform', f'op:{opn}', f'sampling:{smp}',
-               'fill:0' if fill == 0 else 'fill:nonzero', f'unit:{unit}']
+               'fill:0' if np.ndim(fill) == 0 and fill == 0 else 'fill:nonzero', f'unit:{unit}']
         if method != 'linear':
             bks.append(f'method:{method}')
         ctx.case(desc, bks)
@@ -459,6 +474,14 @@ def workload(ctx, lentil):
             other = [np.int64(int(rng.integers(1, 4))), np.float32(1.5), np.float64(other), np.array(float(other)), np.uint8(3),
                      np.int32(2)][(i // 3) % 6]
             ctx.bucket('scalar:numpy-type')
+        if i % 7 == 5:
+            # integer-typed value tables (hand-typed transmissions, 8-bit data): the operation is on the numbers they hold
+            dt = [np.int64, np.uint8, np.int8, np.int32][(i // 7) % 4]
+            va = rng.integers(1, 10, size=na).astype(dt) if dt in (np.int64, np.int32) else rng.integers(60, 120, size=na).astype(dt)
+            A = in_unit(R, wa, va, unit)
+            other = [2, -1, 100, 3.5, va.copy()][int(rng.integers(0, 5))]
+            kind = 2 if isinstance(other, np.ndarray) else 0
+            ctx.bucket('scalar:integer-values')
         ctx.case({'scalar-op': opn, 'kind': kind, 'n': na, 'unit': unit, 'type': type(other).__name__},
                  ['scalar' if kind < 2 else 'vector', f'op:{opn}'])
         try:
@@ -467,7 +490,8 @@ def workload(ctx, lentil):
             else:
                 getattr(A, opn)(other)  # online oracle decides
         except Exception as e:
-            ctx.check(False, 'scalar-elementwise', f'scalar|raises={type(e).__name__}', str(e), {'op': opn, 'kind': kind, 'type': type(other).__name__})
+            if i % 7 != 5:      # (for integer-valued tables the online oracle has recorded the refusal)
+                ctx.check(False, 'scalar-elementwise', f'scalar|raises={type(e).__name__}', str(e), {'op': opn, 'kind': kind, 'type': type(other).__name__})
 
     # ---- grids with decimal steps (400, 400.1, 400.2 ...): combining a spectrum with one on the identical grid is sample by sample
     for i in range(max(6, n // 12)):
